@@ -360,3 +360,37 @@ def apply_substs(text, substs, fired, tag='R1'):
             return _keep_nl(m.group(0), m.expand(repl))
         text = re.sub(pat, f, text)
     return text
+
+
+def rule_r10_mut_self(text, fired):
+    """R10: fn f(mut self, ..) { .. self .. }  ->  fn f(self, ..) { let mut this = self; .. this .. }  (alpha-renaming)"""
+    code = blank_noncode(text)
+    m = re.search(r'\(\s*mut\s+self\b', code)
+    if not m:
+        return text
+    # body start
+    depth = 0
+    ob = None
+    for i, ch in enumerate(code):
+        if ch in '([':
+            depth += 1
+        elif ch in ')]':
+            depth -= 1
+        elif ch == '{' and depth == 0:
+            ob = i
+            break
+    if ob is None or m.start() > ob:
+        return text
+    body = text[ob + 1:]
+    bcode = code[ob + 1:]
+    out = []
+    last = 0
+    for mm in re.finditer(r'\bself\b', bcode):
+        out.append(body[last:mm.start()])
+        out.append('this')
+        last = mm.end()
+    out.append(body[last:])
+    sig = text[:ob]
+    sig = sig[:m.start()] + re.sub(r'mut\s+self', 'self', sig[m.start():], count=1)
+    fired['R10'] = fired.get('R10', 0) + 1
+    return sig + '{ let mut this = self;' + ''.join(out)
